@@ -1,5 +1,6 @@
 """C19 — JSON serialisation round-trips and is valid JSON."""
 import codec_common as K
+import codec_random as R
 
 
 def non_ascii(v):
@@ -33,4 +34,4 @@ def run(tier, replay):
                        "{0, -0, 0.1, 1e-7, 1e21, 5e-324, f64::MAX, 17-digit values} alone and among the other fields; string classes; empty / 1 / 64-element arrays; typed arrays of "
                        "i8..i128, u8..u128, f32, f64, string, bool, null incl. extremes and negatives; to_json -> library parse and -> serde_json, both compared with the value",
                        ["serde_json (no arbitrary precision) is the independent parser; integers beyond 64 bits are not compared with it",
-                        "floats are compared by IEEE-754 bit pattern after parsing; the RFC 8259 grammar itself is serde_json's, not a TLA+ recogniser"])
+                        "floats are compared by IEEE-754 bit pattern after parsing; the RFC 8259 grammar itself is serde_json's, not a TLA+ recogniser"], extra_cases=R.c19)
